@@ -38,6 +38,9 @@ type Src struct {
 	PastEnd int
 	// NoLog disables recording (used for bulk sub-streams).
 	noLog bool
+	// Sink, if set, receives every logged decision at the moment it is taken (single-run
+	// mode streams the log to a file so that it survives a run that kills the process).
+	Sink func(Entry)
 }
 
 func splitmix(x *uint64) uint64 {
@@ -123,6 +126,9 @@ func (c *Src) Choose(n int, label string) int {
 			panic("choice: more than 4 million decisions in one run (harness loop that does not terminate under replay?), last label " + label)
 		}
 		c.Log = append(c.Log, Entry{V: v, N: n, L: label})
+		if c.Sink != nil {
+			c.Sink(Entry{V: v, N: n, L: label})
+		}
 	}
 	return v
 }
